@@ -91,7 +91,7 @@ def replay(ctx, binp, runs, label, timeout="2s", env=None):
             one = os.path.join(ctx.scratch, "solo-%s-%d.ndjson" % (label, j))
             open(one, "w").write(lines[mm["index"]] + "\n")
             so = os.path.join(ctx.scratch, "solo-%s-%d.json" % (label, j))
-            ctx.run([binp, "replay", "-in", one, "-out", so, "-timeout", "4s", "-workers", "1"])
+            ctx.run([binp, "replay", "-in", one, "-out", so, "-timeout", "4s", "-workers", "1"], env=env)
             again = (json.load(open(so)).get("mismatches") or [])
             if again and again[0]["step"] == mm["step"] and again[0]["field"] == mm["field"]:
                 again[0]["index"] = mm["index"]
@@ -499,6 +499,11 @@ def replay_file(ctx, pid, path):
         runs = os.path.join(ctx.scratch, "one.ndjson")
         open(runs, "w").write(json.dumps(beh) + "\n")
         res = replay(ctx, binp, runs, "replay")
+        if not res.get("mismatches"):
+            # the check replays part of its behaviours with shifted real terms
+            env2 = dict(os.environ)
+            env2["VERIF_TERMBASE"] = "2"
+            res = replay(ctx, binp, runs, "replay-termbase2", env=env2)
         report(ctx, pid, res, "replay")
         findings_reached(ctx, pid, runs, res, "replay")
     elif d.get("kind") == "tracker":
@@ -712,11 +717,15 @@ def run(ctx, pid):
         write_pipe(ctx, pid)
     if pid in ("C08", "C01"):
         ack_tracker(ctx)
+    # the remaining replays run with shifted real terms (specification term t = real term t+1 instead of t-1):
+    # protobuf omits a zero term, records of the real term 0 are shorter than all later ones
+    env2 = dict(os.environ)
+    env2["VERIF_TERMBASE"] = "2"
     # the same with a spare node and a node swap (ensemble change, removed node deleted after the election)
     r = ctx.tlc("OxiaShardSim", "shard-runs-swap.cfg", simulate="num=%d" % (num // 4), depth=56, workers=1, label="simswap")
     sruns = os.path.join(ctx.scratch, "runs-swap.ndjson")
     if export_runs(ctx, r, sruns):
-        sres = replay(ctx, binp, sruns, "sim-swap")
+        sres = replay(ctx, binp, sruns, "sim-swap", env=env2)
         other += report(ctx, pid, sres, "simswap")
         reached |= findings_reached(ctx, pid, sruns, sres, "simswap")
         if pid == "C02":
@@ -725,7 +734,7 @@ def run(ctx, pid):
     wruns = os.path.join(ctx.scratch, "witness.ndjson")
     nw, names = witness_runs(ctx, wruns)
     if nw:
-        wres = replay(ctx, binp, wruns, "witness")
+        wres = replay(ctx, binp, wruns, "witness", env=env2)
         other += report(ctx, pid, wres, "witness")
         reached |= findings_reached(ctx, pid, wruns, wres, "witness")
         if pid == "C02":
@@ -733,7 +742,7 @@ def run(ctx, pid):
         if pid in ("C04", "C01", "C03"):
             # the same witnesses on a slow disk: a sync round that is pending when NewTerm arrives stalls for
             # 2.5 s (6 s in the thorough tier); the handler has to wait for it and still report the end of its log
-            env = dict(os.environ)
+            env = dict(env2)
             env["VERIF_SLOWSYNC"] = "2500ms" if quick else "6s"
             sres = replay(ctx, binp, wruns, "witness-slowdisk", timeout="4s", env=env)
             other += report(ctx, pid, sres, "witness-slowdisk")
@@ -742,7 +751,7 @@ def run(ctx, pid):
         cruns = os.path.join(ctx.scratch, "wsim.ndjson")
         nc = witness_continuations(ctx, cruns, 8 if quick else 150)
         if nc:
-            cres = replay(ctx, binp, cruns, "witness-continuations")
+            cres = replay(ctx, binp, cruns, "witness-continuations", env=env2)
             other += report(ctx, pid, cres, "wcont")
             reached |= findings_reached(ctx, pid, cruns, cres, "wcont")
             if pid == "C02":
